@@ -111,7 +111,7 @@ def run(ctx):
             if len(rets) != 1 or not isinstance(rets[0].value, ObjV):
                 ctx.unknown("C18.1", fi, fi.node, f"ADC [{case}]", f"{len(rets)} return paths")
                 continue
-            si = [r for r in it.calls if r.callee == "opticomlib.utils.shortest_int" and r.depth == 0]
+            si = [r for r in it.calls if r.callee == "opticomlib.utils.shortest_int"]
             if len(si) != 1:
                 ctx.violation("C18.2", fi, fi.node, f"ADC [{case}]: full-scale range", "range is not estimated by one shortest_int(signal, 99.99) call")
                 continue
